@@ -359,6 +359,162 @@ func runC11(c *eng.Ctx) {
 				"the counter can take the value "+bad)
 		}
 	})
+	// ---- a write takes the series it resolves off the collection list --------------------------------------------------------------
+	// (every flush marks the series of the flushed memory database as collectable, GC removes a series whose mark is older than 3h:
+	// the rule "a write removes the mark" lives in GenMemTimeSeriesID, for the id it RETURNS, on every exit)
+	c.Rule("PASS", "tsdb/memdb.timeSeriesIndex.GenMemTimeSeriesID{the returned id leaves the expired set}", func() {
+		f := c.Fn("tsdb/memdb.timeSeriesIndex.GenMemTimeSeriesID")
+		isDel := func(p *eng.Prog, in ssa.Instruction) bool {
+			cl, ok := in.(*ssa.Call)
+			if !ok || cl.Common().StaticCallee() == nil || baseName(cl.Common().StaticCallee().Name()) != "Delete" || len(cl.Common().Args) < 2 {
+				return false
+			}
+			return eng.DependsOnField(cl.Common().Args[0], "tsdb/memdb.timeSeriesIndex.expiredIDs")
+		}
+		// the cell(s) whose content a deferred function deletes from the set
+		var cells []ssa.Value
+		var direct []eng.Site
+		for _, g := range append([]*ssa.Function{f}, f.AnonFuncs...) {
+			for _, s := range p.SitesDirect(g, isDel) {
+				key := s.Instr.(*ssa.Call).Common().Args[1]
+				if g == f {
+					direct = append(direct, s)
+					continue
+				}
+				// the key inside the closure: a load of a captured variable -> the enclosing function's cell
+				eng.WalkExpr(key, func(x ssa.Value) bool {
+					if fv, ok := x.(*ssa.FreeVar); ok {
+						for i, v := range g.FreeVars {
+							if v != fv {
+								continue
+							}
+							for _, b := range f.Blocks {
+								for _, in := range b.Instrs {
+									if mc, ok := in.(*ssa.MakeClosure); ok && mc.Fn == ssa.Value(g) && i < len(mc.Bindings) {
+										cells = append(cells, mc.Bindings[i])
+									}
+								}
+							}
+						}
+					}
+					return true
+				})
+			}
+		}
+		if len(cells) == 0 && len(direct) == 0 {
+			c.Undecided("unresolved anchor: no expiredIDs.Delete(id) in GenMemTimeSeriesID")
+		}
+		n := 0
+		for _, b := range f.Blocks {
+			for _, in := range b.Instrs {
+				r, ok := in.(*ssa.Return)
+				if !ok || len(r.Results) == 0 || f.Recover != nil && b == f.Recover {
+					continue
+				}
+				n++
+				rv := r.Results[0]
+				okR := false
+				// returned value is the content of the cell the deferred function deletes
+				if u, isLoad := rv.(*ssa.UnOp); isLoad && u.Op == token.MUL {
+					for _, cell := range cells {
+						if u.X == cell {
+							okR = true
+						}
+					}
+				}
+				// or it was deleted directly on the way
+				for _, d := range direct {
+					if eng.SameValue(d.Instr.(*ssa.Call).Common().Args[1], rv) && eng.DominatedBy(f, r, []eng.Site{d}, nil) {
+						okR = true
+					}
+				}
+				c.Check(okR, fmt.Sprintf("returned-id-is-the-id-unmarked[%d]", n), r, f,
+					"the memory series id a write is given is the id whose expire mark is removed (the deferred function reads the variable the result is returned from)", "returns "+p.Desc(rv))
+			}
+		}
+		c.Check(n >= 2, "exits", nil, f, "GenMemTimeSeriesID has a fast path and a create path", fmt.Sprintf("%d returns", n))
+	})
+
+	// ---- the wire form of a partial result: one block per aggregate type, each written from the block's own start slot --------------
+	// (the encoder is re-set to startSlot for every aggregate type of the field; the slot cursor that pads the empty slots must
+	// restart with it - carried over from the previous type, the values of the 2nd and later types shift toward slot 0)
+	c.Rule("RESET", "aggregation.fieldIterator.MarshalBinary{slot cursor restarts with the encoder}", func() {
+		f := c.Fn("aggregation.fieldIterator.MarshalBinary")
+		resets := p.Sites(f, func(p *eng.Prog, in ssa.Instruction) bool {
+			cl, ok := in.(*ssa.Call)
+			if !ok {
+				return false
+			}
+			if g := cl.Common().StaticCallee(); g != nil && baseName(g.Name()) == "RestWithStartTime" {
+				return true
+			}
+			return eng.CallTo("var:pkg/encoding.TSDEncodeFunc")(p, in)
+		})
+		if len(resets) == 0 {
+			c.Undecided("unresolved anchor: no encoder (re)start in MarshalBinary")
+		}
+		outer := innermostLoop(f, resets[0].Instr.Block())
+		if outer == nil {
+			c.Undecided("unresolved anchor: the encoder is not (re)started inside a loop")
+		}
+		// the cursor: the phi a row's slot is compared with
+		var cursors []*ssa.Phi
+		for _, b := range f.Blocks {
+			for _, in := range b.Instrs {
+				bo, ok := in.(*ssa.BinOp)
+				if !ok || bo.Op != token.GTR && bo.Op != token.LSS && bo.Op != token.GEQ && bo.Op != token.LEQ {
+					continue
+				}
+				for _, pair := range [][2]ssa.Value{{bo.X, bo.Y}, {bo.Y, bo.X}} {
+					ph, isPhi := pair[1].(*ssa.Phi)
+					if !isPhi {
+						continue
+					}
+					if eng.DependsOn(pair[0], func(x ssa.Value) bool {
+						cl, ok := x.(*ssa.Call)
+						return ok && (cl.Common().IsInvoke() && cl.Common().Method.Name() == "Next" || cl.Common().StaticCallee() != nil && baseName(cl.Common().StaticCallee().Name()) == "Next")
+					}) {
+						cursors = append(cursors, ph)
+					}
+				}
+			}
+		}
+		if len(cursors) == 0 {
+			c.Undecided("unresolved anchor: no comparison of a row's slot with the slot cursor in MarshalBinary")
+		}
+		for i, cur := range cursors {
+			seen := map[*ssa.Phi]bool{}
+			carried := false
+			fromStart := false
+			var walk func(v ssa.Value)
+			walk = func(v ssa.Value) {
+				switch x := v.(type) {
+				case *ssa.Phi:
+					if seen[x] {
+						return
+					}
+					seen[x] = true
+					if x.Block() == outer {
+						carried = true
+					}
+					for _, e := range x.Edges {
+						walk(e)
+					}
+				case *ssa.BinOp:
+					walk(x.X)
+					walk(x.Y)
+				default:
+					if eng.DependsOnField(v, "aggregation.fieldIterator.startSlot") {
+						fromStart = true
+					}
+				}
+			}
+			walk(cur)
+			c.Check(fromStart && !carried, fmt.Sprintf("cursor-restarts-per-block[%d]", i), cur, f,
+				"the slot cursor starts from startSlot again for every encoded block: it is not carried round the loop that (re)starts the encoder", fmt.Sprintf("from startSlot: %v, carried over the outer loop: %v", fromStart, carried))
+		}
+	})
+
 	c.Rule("RESET", mfT+".reset{per-metric state of the block writer}", func() { flusherMetricReset(c) })
 	c.Rule("LAYOUT", "tsdb/tblstore/metricsdata{block footer}", func() { blockFooter(c) })
 	c.Rule("EXHAUSTIVE", "series/field{type tables}", func() { fieldTypeTables(c) })
